@@ -1,6 +1,7 @@
 import TracklibVerif.Model.Graph
 import TracklibVerif.Model.GraphPathExt
 import TracklibVerif.Model.GraphMut
+import TracklibVerif.Model.GraphAStarPath
 import TracklibVerif.Drv.Util
 import TracklibVerif.Drv.C06
 /-! Driver handler for C07 (shortest path reconstruction), weights in `Rat` (or `Float`, commands prefixed with `f`), points on the integer lattice.
@@ -43,7 +44,13 @@ tag; the reply gives the coordinates of the observations of the returned track.
      → outputs (`|`) `#` the `output_dict` entries `#` the final content: NEXT_EDGES per node 0..n-1 `!` stored position per
        node (`-` = not registered) `!` node ids in insertion order `!` the edges `id,s,t,w,o` in insertion order `!` their
        polylines
-  fpaths / fsession / fmsession: the same with weights, cut-offs and labels as IEEE-754 bit patterns (model instantiated at `Float`) -/
+  asession <n> <order> <edges> <pos> <lines> <af> <hpos> <ops>
+     `session` on an object WITH ITS ROUTING SETTINGS (`Model/GraphAStarPath.lean`): `<hpos>` = `e,n,u` per node (`;`, weights'
+     format): the coordinates `Node.distanceTo` reads for the A* heuristic; `<ops>` as for `session` plus
+        `M:<mode>`   setRoutingMethod(mode)    → `ok`
+        `A:<w>`      setAStarWeight(w)         → `ok`
+     (exact stream: refused when a distance between two nodes is not rational)
+  fpaths / fsession / fmsession / fasession: the same with weights, cut-offs and labels as IEEE-754 bit patterns (model instantiated at `Float`) -/
 namespace TV.Drv.C07
 open TV.Graph TV.GraphExt TV.Drv
 
@@ -291,9 +298,46 @@ def handleW (cmd : String) (args : List String) : String :=
   | _, _ => "bad-request"
 end generic
 
+
+section astar
+variable {W : Type} (pw : String → Option W) (sw : W → String) (sqrt : W → W) (okPos : List (Pos W) → Bool)
+variable [LT W] [DecidableLT W] [Add W] [OfNat W 0] [OfNat W 1] [Sub W] [Mul W]
+
+def hpos? (s : String) : Option (Pos W) :=
+  match (splitTok s ',').mapM pw with
+  | some [e, n, u] => some ⟨e, n, u⟩
+  | _ => none
+
+def opA? (n : Nat) (s : String) : Option (GraphExt.OpA W) :=
+  match splitTok s ':' with
+  | ["M", m] => m.toNat?.map GraphExt.OpA.setMethod
+  | ["A", w] => (pw w).map GraphExt.OpA.setWeight
+  | _ => (op? pw n s).map GraphExt.OpA.call
+
+def handleA (args : List String) : String :=
+  match args with
+  | [n, order, es, pos, lines, af, hpos, ops] =>
+    match C06.netW? pw n es, flag? af with
+    | some net, some af =>
+      match C06.order? net.n order, geometry? net af pos lines, (splitTok hpos ';').mapM (hpos? pw), (splitTok ops ';').mapM (opA? pw net.n) with
+      | some order, some sc, some hp, some ops =>
+        if hp.length == net.n && okPos hp then
+          match hp with
+          | [] => "bad-request"
+          | p0 :: _ =>
+            let r := GraphExt.runSessionA sqrt net sc.geo (fun v => hp[v]?.getD p0) order GraphExt.SessA.start ops
+            joinWith "|" (r.1.map (showOut sw sc)) ++ "#" ++ showDict sw net.n r.2.sess.dict
+        else "bad-request"
+      | _, _, _, _ => "bad-request"
+    | _, _ => "bad-request"
+  | _ => "bad-request"
+end astar
+
 /-- `paths` / `session`: weights, cut-offs and labels are rationals; `fpaths` / `fsession`: IEEE-754 bit patterns, the
 same model definitions instantiated at `Float` -/
 def handle (cmd : String) (args : List String) : String :=
-  if cmd.startsWith "f" then handleW C06.fl? showFloat (cmd.drop 1).toString args
+  if cmd == "asession" then handleA rat? showRat sqrtRat C06.okPosRat args
+  else if cmd == "fasession" then handleA C06.fl? showFloat Float.sqrt C06.okPosFloat args
+  else if cmd.startsWith "f" then handleW C06.fl? showFloat (cmd.drop 1).toString args
   else handleW rat? showRat cmd args
 end TV.Drv.C07
